@@ -8,6 +8,7 @@ from scipy.linalg import norm
 
 # Local Imports
 from ..bodies import Earth
+from ..constants import PI
 from ..maths import fpe_equals, rot1, rot3, wrapAngle2Pi
 from . import isEccentric, isInclined
 from .anomaly import eccLong2MeanLong, meanLong2EccLong, meanLong2TrueAnom, trueAnom2MeanLong
@@ -119,6 +120,10 @@ def eci2coe(eci_state: ndarray, mu: float = Earth.mu) -> OrbitalElementTuple:
     inclined = isInclined(inc)
     eccentric = isEccentric(ecc)
 
+    # [NOTE]: an equatorial orbit with inc ~ pi runs clockwise about +z, and coe2eci applies the in-plane
+    #   angles along the motion: its longitudes are the negatives of the counter-clockwise angles measured here.
+    node_sign = -1.0 if inc > 0.5 * PI else 1.0
+
     # Define parameters specific to orbit types
     if inclined and eccentric:
         raan = getRightAscension(n_unit_vec)
@@ -127,7 +132,7 @@ def eci2coe(eci_state: ndarray, mu: float = Earth.mu) -> OrbitalElementTuple:
         return sma, ecc, inc, wrapAngle2Pi(raan), wrapAngle2Pi(argp), wrapAngle2Pi(true_anomaly)
 
     if not inclined and eccentric:
-        true_long_periapsis = getTrueLongitudePeriapsis(ecc_vec)
+        true_long_periapsis = node_sign * getTrueLongitudePeriapsis(ecc_vec)
         true_anomaly = getTrueAnomaly(pos_vec, vel_vec, ecc_vec)
         # RAAN, Ω, is undefined
         return sma, ecc, inc, 0.0, wrapAngle2Pi(true_long_periapsis), wrapAngle2Pi(true_anomaly)
@@ -139,7 +144,7 @@ def eci2coe(eci_state: ndarray, mu: float = Earth.mu) -> OrbitalElementTuple:
         return sma, ecc, inc, wrapAngle2Pi(raan), 0.0, wrapAngle2Pi(arg_lat)
 
     # else:  # Circular and Equatorial
-    true_longitude = getTrueLongitude(pos_vec)
+    true_longitude = node_sign * getTrueLongitude(pos_vec)
     # RAAN, Ω, and Arg. Perigee, ω, are undefined
     return sma, ecc, inc, 0.0, 0.0, wrapAngle2Pi(true_longitude)
 
